@@ -197,3 +197,29 @@ prop("C05",
      unverified_surroundings=["pytato.transform.metadata (unify_axes_tags "
                               "solver)", "MPMSMaterializer.map_* bookkeeping "
                               "beyond _materialize_if_mpms"])
+
+prop("C20",
+     level="proof",
+     level_text=(
+         "Deductive proof per node kind, for arbitrary (opaque) children: the "
+         "three users/predecessor implementations record the same collection "
+         "for a node; every traversal reaches all declared children and "
+         "post-visits after them (=> topological order); counters add exactly "
+         "one per first visit with the right key; the materialised-node "
+         "predicate is exactly the documented set."),
+     level_note=(
+         "Whole-graph statements (counts equal number of distinct nodes, "
+         "topological order) follow by the inductions of DESIGN Appendix "
+         "A.1/A.5 (paper) from the per-function contracts. Shapes of the "
+         "children are enumerated as integer-valued and as array-valued "
+         "(size-parameter) shapes."),
+     technique="contract-based deductive verification: symbolic execution of "
+               "the real analysis mappers over a reflective data model",
+     design_ref="DESIGN.md §6 C20",
+     explanation="see contracts/c20_analysis.py, c13_mappers.py, "
+                 "c13_caches.py",
+     structural_bound="every node kind; 2-3 entries per collection field; "
+                      "int and array-valued child shapes",
+     trusted_base=["dataclasses.fields reflects the data model"],
+     assumptions=["composition lemmas A.1/A.5 (paper)"],
+     unverified_surroundings=["_recursively_get_all_users (queue loop)"])
